@@ -619,6 +619,47 @@ def seq_asym_len(lib, p11drv, seed, idx):
     return {'i': idx, 'trace': p.trace, 'findings': c.findings, 'model_dis': [], 'model_evals': 0}
 
 
+def x25519_case(c, rng, s):
+    """CKM_ECDH1_DERIVE with an X25519 base key (generated by the library, value read back) against RFC 7748 arithmetic
+    (refcrypto.x25519, validated against the RFC vector and the openssl CLI): value and cutting of the derived key"""
+    p = c.p
+    r = p.op('genpair %s 0x1055 0x180=x:130a63757276653235353139 1=b:0 2=b:0 -- 1=b:0 2=b:0 0x103=b:0 0x162=b:1 0x10c=b:1' % s)
+    if r.get('rv') != '0x0':
+        return
+    hpub, hpriv = r.get('pub'), r.get('priv')
+    kv = p.attr(s, hpriv, CKA['VALUE'])
+    pt = p.attr(s, hpub, 0x181)
+    if kv is None or pt is None:
+        return
+    if len(kv) == 34 and kv[:2] == b'\x04\x20':
+        kv = kv[2:]
+    if len(pt) == 34 and pt[:2] == b'\x04\x20':
+        pt = pt[2:]
+    if len(kv) != 32 or len(pt) != 32 or R.x25519(kv, R.X25519_BASE) != pt:
+        return                    # the private value is not stored in a form this reference understands: nothing to compare
+    for _ in range(rng.randint(2, 3)):
+        e = bytes(rng.randrange(256) for _ in range(32))
+        peer = R.x25519(e, R.X25519_BASE)
+        secret = R.x25519(kv, peer)
+        kt = rng.choice([0x10, 0x10, 0x1f, 0x15])
+        req = rng.choice({0x10: [None, 32, 20, 1, 31], 0x1f: [None, 16, 24, 32], 0x15: [None]}[kt])
+        data = peer if rng.random() < 0.6 else b'\x04\x20' + peer
+        vl = '' if req is None else ' 0x161=u:%d' % req
+        r = p.op('derive %s 0x1050:ecdh:1:%s %s 0=u:4 0x100=u:0x%x%s 1=b:0 2=b:0 0x103=b:0 0x162=b:1' % (s, data.hex(), hpriv, kt, vl))
+        if r.get('rv') != '0x0':
+            if (kt == 0x10 and req is not None) or (kt == 0x1f and req is not None):
+                c.bad('CKM_ECDH1_DERIVE with an X25519 key refuses a specified key: key type 0x%x CKA_VALUE_LEN %s answers %s' % (kt, req, r.get('rv')))
+            continue
+        v = p.attr(s, r['h'], CKA['VALUE'])
+        n = {0x15: 24}.get(kt, req if req else (32 if kt != 0x15 else 24))
+        exp = secret[len(secret) - n:]
+        if kt == 0x15 and v is not None:
+            exp = bytes((b & 0xfe) for b in exp); v = bytes((b & 0xfe) for b in v)      # DES parity bits are adjusted, not compared here
+        if v != exp:
+            c.bad('CKM_ECDH1_DERIVE with an X25519 key: key type 0x%x CKA_VALUE_LEN %s: the value %s is not the trailing %d bytes of the shared secret %s' % (kt, req, None if v is None else v.hex(), n, secret.hex()))
+            return
+
+
 def seq_c10(lib, p11drv, seed, idx):
     rng = random.Random(seed * 104729 + idx)
     p = P11(p11drv, lib)
@@ -645,6 +686,8 @@ def seq_c10(lib, p11drv, seed, idx):
                 ecdh_case(c, rng, s)
             elif w < 0.85:
                 des3_case(c, rng, s)
+            elif w < 0.89:
+                x25519_case(c, rng, s)
             else:
                 rsa_case(c, rng, s, pub, priv, k)
             if c.findings:
@@ -912,8 +955,10 @@ def seq_c13(lib, p11drv, seed, idx, paddrv=None):
                 privkey_wrap_case(c, rng, s, hw, wkey, pub, priv, k)
             elif w < 0.88:
                 dh_case(c, rng, s)
-            elif w < 0.97:
+            elif w < 0.95:
                 ecdh_case(c, rng, s)
+            elif w < 0.98:
+                x25519_case(c, rng, s)
             else:
                 created_kcv_case(c, rng, s)
             if c.findings or c.model_dis:
